@@ -9,7 +9,7 @@ _FNS = {}
 
 def _work(args):
     key, chunk = args
-    line_of, py_of, oracle = _FNS[key]
+    line_of, py_of, oracle, judge = _FNS[key]
     lines = [line_of(c) for c in chunk]
     exp = []
     for c in chunk:
@@ -21,7 +21,7 @@ def _work(args):
     mism = []
     orc = []
     for c, l, e, g in zip(chunk, lines, exp, got):
-        if e != g:
+        if (judge(c, e, g) if judge else e != g):
             mism.append((c, l, e, g))
         if oracle is not None:
             try:
@@ -33,9 +33,10 @@ def _work(args):
     return len(chunk), mism[:20], orc[:2000], len(mism), len(orc)
 
 
-def run(key, cases, line_of, py_of, oracle=None, chunk=2000, procs=None):
+def run(key, cases, line_of, py_of, oracle=None, chunk=2000, procs=None, judge=None):
     """returns dict(n, mismatches=[(case, line, expected_from_impl, got_from_model)], oracle_fail=[(case, why)])"""
-    _FNS[key] = (line_of, py_of, oracle)
+    # judge(case, impl, model) → True when the pair counts as a disagreement (default: they differ)
+    _FNS[key] = (line_of, py_of, oracle, judge)
     cases = list(cases)
     chunks = [(key, cases[i:i + chunk]) for i in range(0, len(cases), chunk)]
     res = {'n': 0, 'mismatches': [], 'oracle_fail': [], 'n_mismatch': 0, 'n_oracle_fail': 0}
